@@ -166,8 +166,8 @@ def class_key(model, exp, hz):
     mixed_prod = any(M.is_copy(model, cnt, i) and {M.is_copy(model, cnt, r["p"]) for r in c["refs"]} == {True, False}
                      for i, c in enumerate(comps))
     return json.dumps([len({c["stage"] for c in comps}), ns, min(ncopy, 2), min(nagg, 1),
-                       sorted({"var" if f.endswith("var") else f for f in forms}), spell, meth,
-                       mixed_prod, M.overlap_kinds(model), sorted({h["kind"] for h in hz})])
+                       any(f.endswith("var") for f in forms), spell, mixed_prod, M.overlap_kinds(model),
+                       sorted({h["kind"] for h in hz})])
 
 
 def judge(model, w, mode):
@@ -226,12 +226,22 @@ if "--worker" in sys.argv:
     vlib.worker_main(run_job)
 
 
+def vlib_scale():
+    """VERIF_SCALE (default 1): shrink/grow plan AND floors proportionally (recorded in the evidence); used to
+    validate the thorough tier on an over-subscribed machine."""
+    import os
+    try:
+        return max(0.01, float(os.environ.get("VERIF_SCALE", "1")))
+    except ValueError:
+        return 1.0
+
+
 def main():
     c = vlib.Check(
         PROP, "exploration",
         rule="distinct = structural class of the document: (#stages, replica-count buckets {1,2-9,>=10}, #replicated "
-             "components (capped 2), has expanding aggregator, form of the replica count (int/str/variable), spellings used, "
-             "method kinds, a copy consuming replicated+single producers, "
+             "components (capped 2), has expanding aggregator, replica count via variable, spellings used, "
+             "a copy consuming replicated+single producers, "
              "textual relations between names, hazard kinds)",
         assumptions=[
             "component names follow the DSL name alphabet [A-Za-z0-9._-], do not end in a digit or '.', do not start "
@@ -255,9 +265,13 @@ def main():
         sys.exit(c.finish())
 
     thorough = vlib.tier() == "thorough"
-    plan = [("clean", False, 1100), ("hazard", False, 500), ("mixed", False, 400)] if not thorough else \
+    plan = [("clean", False, 900), ("hazard", False, 400), ("mixed", False, 300)] if not thorough else \
         [("clean", False, 14000), ("clean", True, 10000), ("hazard", False, 6000), ("hazard", True, 4000),
          ("mixed", False, 3000), ("mixed", True, 3000)]
+    scale = vlib_scale()
+    if scale != 1.0:
+        plan = [(m, b, max(50, int(n * scale))) for m, b, n in plan]
+        c.extra["plan_scale"] = scale
     jobs = []
     per = 125 if not thorough else 500
     for mode, big, n in plan:
@@ -267,13 +281,14 @@ def main():
     total = sum(n for _, _, n in plan)
     c.floor("evaluations", total)
     c.floor("graphs_built", int(total * 0.5))
-    c.floor("docs_without_hazard_with_overlapping_names", 300 if not thorough else 8000)
-    c.floor("docs_overlap_survivable_by_longest_first", 40 if not thorough else 800)
-    c.floor("copies_checked", 3000 if not thorough else 60000)
-    c.floor("aggregator_expansions_checked", 150 if not thorough else 3000)
-    c.floor("outside_nodes_checked", 500 if not thorough else 10000)
-    c.floor("docs_with_10_or_more_replicas", 100 if not thorough else 2000)
-    c.floor("docs_replicas_via_variable", 200 if not thorough else 4000)
+    for name, q, t in [("docs_without_hazard_with_overlapping_names", 300, 8000),
+                       ("docs_overlap_survivable_by_longest_first", 40, 800),
+                       ("copies_checked", 3000, 60000),
+                       ("aggregator_expansions_checked", 150, 3000),
+                       ("outside_nodes_checked", 500, 10000),
+                       ("docs_with_10_or_more_replicas", 100, 2000),
+                       ("docs_replicas_via_variable", 200, 4000)]:
+        c.floor(name, int((t if thorough else q) * min(1.0, scale)))
     sys.exit(c.finish())
 
 
